@@ -280,6 +280,8 @@ def run_sig(case, ctx):
                 g3.append('polluted')     # the caller may edit the fallback it received
                 st4, g4 = ctx.call(wrap(f, stack), *a2, **k2)
                 ctx.check('try_fallback_iff_raises', st4 == 'ok' and g4 == [], lambda: 'try_list fallback after the caller edited an earlier one: %r' % (g4,))
+                st4b, g4b = ctx.call(w2, *a2, **k2) if 'cache' not in stack else ('ok', [])          # ... also from the very same wrapped function (a cached one returns its first result, by design)
+                ctx.check('try_fallback_iff_raises', st4b == 'ok' and g4b == [] and g4b is not g3, lambda: 'try_list: the same wrapped function, failing again after the caller edited the fallback it got the first time, returned %r' % (g4b,))
     elif not tries and supplied and not ('kwargs_support' in stack and sig['varkw']):
         a2, k2 = list(a), dict(k)
         if a:
@@ -410,6 +412,11 @@ def run_retry(case, ctx):
     ctx.check('try_fallback_iff_raises', ok and all(c == (1, 3) for c in calls),
               lambda: 'try_value(f, repeat=%d, return_value=%r, value=%r) on an f whose first %d calls raise: %s %r after %d calls of f (expected %s after %d)' % (
                   k, rv, fallback, j, st, got, len(calls), "f's value" if j <= k else ('the fallback' if rv else "f's exception"), min(j, k) + 1))
+    if j > k and rv and isinstance(fallback, list) and st == 'ok' and isinstance(got, list):
+        got.append('edited-by-the-caller')
+        del calls[:]
+        st2, got2 = ctx.call(w, 1, b=3)
+        ctx.check('try_fallback_iff_raises', st2 == 'ok' and got2 == fallback and got2 is not got, lambda: 'try_value(value=%r): failing again after the caller edited the fallback it got the first time returned %r' % (fallback, got2))
     ctx.cls('try_value_repeat')
     if j:
         ctx.mark_nontrivial(case)
